@@ -79,7 +79,7 @@ def addends(root):
     stack = [root]
     while stack:
         n = stack.pop()
-        if A.kind(n) == "AddExpression":
+        if A.kind(n) in ("AddExpression", "SubtractExpression"):
             stack.append(n.right)
             stack.append(n.left)
         else:
@@ -164,7 +164,17 @@ def check_case(ctx, case):
             return ctx.fail(("text-rejected", name, type(e).__name__), case, det)
         if A.audit(root) is not None:
             return ctx.fail(("text-parses-malformed", name), case, det)
-        if name in PROMISES_LIKE_TERMS:
+        promised = name in PROMISES_LIKE_TERMS
+        if name == "gen_simplify_multiple_terms":
+            # "a polynomial problem with like terms": guaranteed by construction whenever fewer like-term
+            # variables are drawn than terms are requested (the templates wrap around), every term keeps its
+            # variable and the terms are added/subtracted
+            kw = case["kwargs"]
+            nt = kw["num_terms"]
+            n_like = 1 if nt == 2 else max(2, int(nt * kw["inner_terms_scaling"]))
+            additive = kw["op"] in ("+", "-", ["+", "-"], ["+"])
+            promised = additive and not kw["optional_var"] and n_like < nt
+        if promised:
             keys = [term_key(t) for t in addends(root)]
             real = [k for k in keys if k is not None]
             if len(real) == len(set(real)):
